@@ -733,7 +733,34 @@ def check_C25(res):
     return "(M) all trees of three files over a 7-item alphabet + includes with/without origin, depth limits 0-2: the stack of per-file parsers (new_for_include, update_context_from_include) yields exactly what textual inclusion with origin save/restore yields; (V) random trees of 1-6 files in nested directories (top, top/sub, top/sub/deeper, x, x/y) with relative include paths that climb out of the includer's directory, include origins, context-dependent records after includes, depth limits 0-4, missing files (10%), decoy files where a path resolved against the wrong directory would land; fs::Parser output (file, line, record) against ZoneFile!ParseTree"
 
 
+def check_C26(res):
+    q = res.tier == "quick"
+    run_mc(res, "MC_Rrl/fixed", "MC_Rrl.tla", "MC_Rrl.cfg" if q else "MC_Rrl_deep.cfg", workers=4)
+    run_mc(res, "MC_Rrl/as_found (32-bit product wraps)", "MC_Rrl.tla", "MC_Rrl_as_found.cfg", workers=2, expect_violation="any")
+    trace_stage(res, ["rrl", "time", res.seed, 40 if q else 1500], "TraceRrl", "rrl/time", ["C26"], session_start=("Reset",))
+    res.assumptions += ["rates <= 10^6 and a total simulated idle time <= 2*10^9 s per session so that the specification's integers stay below 2^31",
+                        "the limiter's clock read lies within the harness-measured interval around the call (the logged whole-second refill must be consistent with it)",
+                        "for slip >= 2 a limited response may be slipped or dropped (the coin is not logged)"]
+    return "(M) implemented bucket = abstract token bucket (same decision, same count) over every request-time history in scope, incl. gaps where rate x seconds exceeds the word size; (V) sessions of 5-69 requests: rates 1..10^6 per category, windows 1-15, slip 0-3, table sizes 1/7/65537 (evictions), idle periods 1 s .. 10^9 s injected by shifting every bucket's last_refill (Server::verif_rrl_shift) plus real sleeps of 0.1-1.2 s, single-stream and mixed-stream histories; every hook event (count before/after, whole seconds refilled, action) and the visible outcome (full response = the unlimited server's response octets, slipped = TC with only OPT/TSIG, dropped = none) is a step of Rrl!BucketStep"
+
+
+def check_C27(res):
+    q = res.tier == "quick"
+    trace_stage(res, ["rrl", "streams", res.seed, 60 if q else 4000], "TraceRrl", "rrl/streams", ["C27"], session_start=("Reset",))
+    trace_stage(res, ["rrl", "time", res.seed + 3, 15 if q else 300], "TraceRrl", "rrl/time", ["C27"], session_start=("Reset",))
+    res.assumptions += ["QNAME hashes are 32 bits: two different stream names colliding (p < 10^-7 per session) would be reported as a violation",
+                        "CNAME chains are not queried (the stream name of a chased answer is not defined by the property)"]
+    return "sessions under a limit of one response per stream (rate 1, window 1): 12 sources (inside/outside the IPv4 /0,/8,/23,/24,/32 and IPv6 /0,/48,/56,/61,/64 prefixes, IPv4-mapped and almost-mapped IPv6), 13 QNAMEs (case variants, three names under two wildcards, NODATA, NXDOMAIN, REFUSED, SERVFAIL), UDP/TCP, non-QUERY opcodes; the key logged under the bucket lock must be Rrl!Dest(source) x category(direct response) and its QNAME hash must be in bijection with the stream name; TCP and non-QUERY requests must touch no bucket"
+
+
+def check_C28(res):
+    q = res.tier == "quick"
+    trace_stage(res, ["rrl", "burst", res.seed, 40 if q else 3000], "TraceRrl", "rrl/burst", ["C28"], session_start=None)
+    return "bursts of 2-16 OS threads x 1-59 identical requests released by a barrier, with yields in the submitters and a perturbing sink (yield / 50 us sleep while the bucket lock is held); the hook events, ordered by the sequence number taken under the lock, must chain on one bucket (before = previous after), one update per request, and with no refill in between exactly min(n, rate x window) responses are full"
+
+
 CHECKS = {
+    "C26": check_C26, "C27": check_C27, "C28": check_C28,
     "C23": check_C23, "C24": check_C24, "C25": check_C25,
     "C22": check_C22,
     "C06": check_C06, "C20": check_C20, "C21": check_C21,
